@@ -277,8 +277,9 @@ func runC02C03(c *Ctx, which string) {
 			continue
 		}
 		abs := i%3 == 0
-		o := expOpts{Absolute: abs}
-		key := fmt.Sprint(worldJSON(w), abs)
+		// every target is present: continuing on errors must make no difference
+		o := expOpts{Absolute: abs, Continue: i%4 == 1}
+		key := fmt.Sprint(worldJSON(w), abs, o.Continue)
 		c.Count(key, len(g.KindOf) >= 2)
 		c.Hit("family:" + fam.name)
 		cyclic := g.Cyclic()
